@@ -235,6 +235,23 @@ pub fn run(rep: &'static Report) {
             rep.nontrivial(format!("sp-eph-{}-{}", name, vn).as_bytes());
         }
     }
+    // claimed sender = small-order point hidden in the encrypted s field; the forger cannot (and does not) mix ss
+    for (name, pt) in sp.iter().filter(|(n, _)| n.starts_with("small-order")) {
+        for variant in ["skip-ss", "ss-zero"] {
+            let mut roles = XRoles::honest(&r::KEY_MAGIC, &k[0].sk, &k[2].pk, &e);
+            roles.s_pub = *pt;
+            if variant == "skip-ss" {
+                roles.skip_ss = true;
+            } else {
+                roles.ss_override = Some([0u8; 32]);
+            }
+            if let Some(f) = forged_file(&roles, &pay, &p) {
+                let (res, out) = dec(&k[2], &f);
+                expect(rep, &format!("special-sender-{}", variant), json!({"kind":"special-sender","name":name,"variant":variant}), &format!("forged file whose claimed sender key is {} [{}]", name, variant), false, None, &p, &res, &out);
+                rep.nontrivial(format!("sp-sender-{}-{}", name, variant).as_bytes());
+            }
+        }
+    }
     rep.extra("special_points", json!(sp.len()));
     rep.extra("small_order_encodings", json!(small));
     rep.sample(json!({"kind":"special-recipient","name":"small-order-5-bit255","expect":"key_encrypt returns Err and writes nothing"}));
